@@ -26,6 +26,7 @@ func main() {
 	dump := flag.String("dump", "", "debug: dump SSA of functions whose key contains this string")
 	explain := flag.String("explain", "", "print a violations file in readable form")
 	list := flag.Bool("list", false, "list module functions")
+	writeRef := flag.Bool("write-reference", false, "write checker/reference/functions.json (function fingerprints of the tree the rules were confirmed on) and exit")
 	ovDir := flag.String("overlay-dir", "", "self-test: directory mirroring repo paths whose files replace the repo's (analysed, never written to the repo)")
 	flag.Parse()
 
@@ -48,7 +49,30 @@ func main() {
 			return nil
 		})
 	}
+	refFile := filepath.Join(*verif, "checker", "reference", "functions.json")
+	if !*writeRef {
+		engine.RefFile = refFile
+	}
 	p, err := engine.Load(*repo, overlay)
+	if err == nil && *writeRef {
+		fp := p.Fingerprints()
+		for k := range fp {
+			if strings.Contains(k, "zzmcvetcontrols") {
+				delete(fp, k)
+			}
+		}
+		b, _ := json.MarshalIndent(fp, "", " ")
+		_ = os.MkdirAll(filepath.Dir(refFile), 0o755)
+		if e := os.WriteFile(refFile, b, 0o644); e != nil {
+			fmt.Println(e)
+			os.Exit(2)
+		}
+		fmt.Printf("wrote %d function fingerprints to %s\n", len(fp), refFile)
+		return
+	}
+	for now, ref := range engine.Renamed {
+		fmt.Printf("RENAMED %s is analysed under its reference name %s\n", engine.Short(now), engine.Short(ref))
+	}
 	if err != nil {
 		id := *prop
 		if id == "" {
@@ -235,6 +259,7 @@ func runSelfTest(repo, verif, prop string) map[string]interface{} {
 			vf := filepath.Join(tmp, "verif")
 			_ = os.MkdirAll(filepath.Join(vf, "checker"), 0o755)
 			_ = os.Symlink(filepath.Join(verif, "checker", "controls"), filepath.Join(vf, "checker", "controls"))
+			_ = os.Symlink(filepath.Join(verif, "checker", "reference"), filepath.Join(vf, "checker", "reference"))
 			if b, e := os.ReadFile(filepath.Join(verif, "known_findings.json")); e == nil {
 				_ = os.WriteFile(filepath.Join(vf, "known_findings.json"), b, 0o644)
 			}
